@@ -97,6 +97,8 @@ pub struct RunCtx {
     next_idx: u64,
     pub ran: u64,
     case_started: Instant,
+    slow_violations: u32,
+    skipping: bool,
 }
 
 #[derive(Debug, Clone)]
@@ -201,6 +203,8 @@ impl RunCtx {
             case_timeout,
             next_idx: 0,
             ran: 0,
+            slow_violations: 0,
+            skipping: false,
             case_started: Instant::now(),
         }
     }
@@ -228,6 +232,16 @@ impl RunCtx {
         if let Some(only) = &self.only {
             return only == id;
         }
+        // A tree on which cases hang would make a shard spend its whole budget waiting
+        // for time-outs: after a few slow violations (the check fails anyway) the rest of
+        // this shard is skipped and that is noted in the output.
+        if self.slow_violations >= 4 {
+            if !self.skipping {
+                self.skipping = true;
+                self.note("stopped_early", json!("4 violations that each took 15 s or more: remaining cases of this shard skipped"));
+            }
+            return false;
+        }
         idx % self.shard.1 == self.shard.0
     }
 
@@ -249,6 +263,9 @@ impl RunCtx {
     pub fn end(&mut self, res: CaseResult) {
         self.watch.lock().unwrap().current = None;
         self.ran += 1;
+        if matches!(res.outcome, Outcome::Violation { .. }) && self.case_started.elapsed() >= Duration::from_secs(15) {
+            self.slow_violations += 1;
+        }
         let (kind, rule, detail) = match &res.outcome {
             Outcome::Held => ("held", String::new(), String::new()),
             Outcome::Violation { rule, detail } => ("violation", rule.clone(), detail.clone()),
